@@ -148,5 +148,78 @@ theorem parse_make (f : Fields) (h : Bytes) (hq : validRateQ f.q = true) (hm : m
       G 68 f.tracecount (by simp [writes]) h68, G 72 f.version (by simp [writes]) h72,
       toSigned_word _ h16, wrap_word _ h20, wrap_word _ h24, toSigned_word _ h28, wrap_word _ h32, wrap_word _ h36, hr1]
 
+
+/-! ### the header-word table -/
+
+/-- stores elsewhere leave a word alone -/
+theorem get32_foldl_other (ws : List (Nat × Nat)) (b : Bytes) (o : Nat)
+    (h : ∀ y ∈ ws, o + 4 ≤ y.1 ∨ y.1 + 4 ≤ o) :
+    get32 (ws.foldl (fun h ow => put32 h ow.1 ow.2) b) o = get32 b o := by
+  induction ws generalizing b with
+  | nil => rfl
+  | cons y ys ih =>
+    simp only [List.foldl_cons]
+    rw [ih _ (fun z hz => h z (List.mem_cons_of_mem _ hz)),
+      get32_put32_other _ _ _ _ (h y List.mem_cons_self)]
+
+theorem tableWrites_disjoint (rows : List TRow) :
+    (tableWrites rows).Pairwise fun a c => a.1 + 4 ≤ c.1 ∨ c.1 + 4 ≤ a.1 := by
+  unfold tableWrites
+  rw [List.pairwise_map]
+  exact List.Pairwise.imp (fun {a b} (hab : a < b) => Or.inl (by simp only; omega)) List.pairwise_lt_range
+
+theorem get32_putTable (h : Bytes) (rows : List TRow) (k : Nat) (hk : k < 3 * rows.length) :
+    get32 (putTable h rows) (tableAt + 4 * k) = word (cell rows k) := by
+  unfold putTable
+  apply get32_foldl _ _ _ _ _ (word_lt _) (tableWrites_disjoint rows)
+  unfold tableWrites
+  exact List.mem_map.mpr ⟨k, List.mem_range.mpr hk, rfl⟩
+
+theorem cell_row (rows : List TRow) (i : Nat) (hi : i < rows.length) :
+    cell rows (3 * i) = rows[i].1 ∧ cell rows (3 * i + 1) = rows[i].2.1 ∧ cell rows (3 * i + 2) = rows[i].2.2 := by
+  unfold cell
+  have e0 : 3 * i / 3 = i := by omega
+  have e1 : (3 * i + 1) / 3 = i := by omega
+  have e2 : (3 * i + 2) / 3 = i := by omega
+  have m0 : 3 * i % 3 = 0 := by omega
+  have m1 : (3 * i + 1) % 3 = 1 := by omega
+  have m2 : (3 * i + 2) % 3 = 2 := by omega
+  simp only [e0, e1, e2, m0, m1, m2, List.getD_eq_getElem?_getD, List.getElem?_eq_getElem hi, Option.getD_some]
+  simp
+
+/-- **table round trip**: the reader recovers every row the writer stored (values within `struct.pack('<i')`'s range) -/
+theorem getRow_putTable (h : Bytes) (rows : List TRow) (i : Nat) (hi : i < rows.length)
+    (hr : ∀ r ∈ rows, i32 r.1 ∧ i32 r.2.1 ∧ i32 r.2.2) : getRow (putTable h rows) i = rows[i] := by
+  have hrow := hr rows[i] (List.getElem_mem hi)
+  obtain ⟨c0, c1, c2⟩ := cell_row rows i hi
+  unfold getRow rowAt
+  have a0 : tableAt + 12 * i = tableAt + 4 * (3 * i) := by omega
+  have a1 : tableAt + 12 * i + 4 = tableAt + 4 * (3 * i + 1) := by omega
+  have a2 : tableAt + 12 * i + 8 = tableAt + 4 * (3 * i + 2) := by omega
+  rw [a2, a1, a0, get32_putTable h rows _ (by omega), get32_putTable h rows _ (by omega),
+    get32_putTable h rows _ (by omega), c0, c1, c2,
+    toSigned_word _ hrow.1, toSigned_word _ hrow.2.1, toSigned_word _ hrow.2.2]
+
+theorem getTable_putTable (h : Bytes) (rows : List TRow) (hr : ∀ r ∈ rows, i32 r.1 ∧ i32 r.2.1 ∧ i32 r.2.2) :
+    getTable (putTable h rows) rows.length = rows := by
+  apply List.ext_getElem
+  · simp [getTable]
+  · intro i h1 h2
+    simp only [getTable, List.getElem_map, List.getElem_range]
+    exact getRow_putTable h rows i h2 hr
+
+/-- the table does not touch a word outside bytes `980 … 980 + 12·rows` (in particular none of the fixed fields, which end
+at byte 76, and nothing beyond byte 2048 when there are 89 rows) -/
+theorem putTable_outside (h : Bytes) (rows : List TRow) (o : Nat)
+    (ho : o + 4 ≤ tableAt ∨ tableAt + 12 * rows.length ≤ o) : get32 (putTable h rows) o = get32 h o := by
+  unfold putTable
+  apply get32_foldl_other
+  intro y hy
+  unfold tableWrites at hy
+  obtain ⟨k, hk, rfl⟩ := List.mem_map.mp hy
+  have := List.mem_range.mp hk
+  simp only
+  omega
+
 end Header
 end Sgz
